@@ -200,7 +200,36 @@ fn gen_spec(rng: &mut Rng, inv: &Inv, dist: &mut Dist) -> Spec {
   let mut amount = *rng.pick(&amounts);
   let mut delta = 0i64;
   let layout = rng.next_u64();
-  if rng.below(100) < 68 {
+  let shape = rng.below(100);
+  if shape < 16 {
+    // position stream: the wallet's input is NOT the first input.  (a) the foreign input at
+    // position 0 is unsigned, (b) the seller input arrives with a final witness / script_sig,
+    // (c) both — the shape that passes if the seller's position is mistaken for 0; plus the
+    // well-formed control.  Every other foreign input is signed.
+    let seller = pick_idx(rng, inv, |o| o.owned && o.ins.len() == 1 && !o.runic).unwrap();
+    let named = inv.outs[seller].ins[0];
+    let kind = rng.below(4);
+    let first_sig = if kind == 0 || kind == 2 { SigKind::None } else { SigKind::WitDummy };
+    let seller_sig = if kind == 1 || kind == 2 { *rng.pick(&[SigKind::WitDummy, SigKind::WitOther, SigKind::Script]) } else { SigKind::None };
+    dist.hit(["pos_a_first_unsigned", "pos_b_seller_prefilled", "pos_c_both", "pos_control"][kind as usize]);
+    let mut foreign: Vec<usize> = Vec::new();
+    let nf = 1 + rng.below(3);
+    for _ in 0..nf {
+      let b = pick_idx(rng, inv, |o| o.kind == "f-plain").unwrap();
+      if !foreign.contains(&b) {
+        foreign.push(b);
+      }
+    }
+    let mut ins = vec![InSpec { out: foreign[0], sig: first_sig, other: 0 }];
+    for b in &foreign[1..] {
+      ins.push(InSpec { out: *b, sig: SigKind::WitDummy, other: 0 });
+    }
+    // seller anywhere but position 0
+    let at = 1 + rng.below(ins.len() as u64) as usize;
+    ins.insert(at, InSpec { out: seller, sig: seller_sig, other: 0 });
+    return Spec { ins, named, amount, delta, layout };
+  }
+  if shape < 72 {
     dist.hit("gen_near_valid");
     let seller = pick_idx(rng, inv, |o| o.owned && o.ins.len() == 1 && !o.runic).unwrap();
     let mut named = inv.outs[seller].ins[0];
@@ -660,6 +689,12 @@ fn emit_case(
         run.outcome.replace(' ', "_"),
         u8::from(run.processed),
       ),
+      "true",
+    );
+    // per-position facts: which input the implementation treated as the seller's (named in its
+    // error, or implied by an approval) is the ONE wallet input, at its real position
+    out.emit(
+      &format!("offer.oracle.positions {} {} {ins} {}", truth.unspent, truth.locked, run.outcome.replace(' ', "_")),
       "true",
     );
     // dry runs and rejected offers leave no trace at the node
